@@ -120,6 +120,17 @@ fn bmatrix<W: WorldDriver>(m: &HashMap<String, String>) -> i32 {
         println!("FAIL prop=C11 sig=borrow-matrix tags=C11 step=0 replay={} msg={}", path, one_line(&msg));
         return 1;
     }
+    // accesses made from inside a clone (component Clone impls re-entering the world)
+    match vh::borrowm::clone_reentrancy::<W>(&pops) {
+        Ok((combos, must_panic)) => println!("STATS prop=C11 world={} variant={} reentrancy_combos={} reentrancy_must_panic={}", W::NAME, variant, combos, must_panic),
+        Err((text, msg)) => {
+            let path = m.get("fail-out").cloned().unwrap_or_else(|| "fail-C11.nest".to_string());
+            let nest_text = vh::borrowm::nest_to_text::<W>(&pops, &[]);
+            std::fs::write(&path, format!("# property C11\n# {}\n# {}\nreentrancy\n{}", one_line(&msg), text, nest_text)).expect("write replay");
+            println!("FAIL prop=C11 sig=borrow-clone-reentrancy tags=C11 step=0 replay={} msg={}", path, one_line(&msg));
+            return 1;
+        }
+    }
     0
 }
 
@@ -141,6 +152,18 @@ fn bsearch<W: WorldDriver>(m: &HashMap<String, String>) -> i32 {
 }
 
 fn breplay<W: WorldDriver>(pops: &[(u8, Option<u8>)], nests: &[Vec<vh::types::BAccess>], path: &str) -> i32 {
+    if std::fs::read_to_string(path).map_or(false, |t| t.lines().any(|l| l.trim() == "reentrancy")) {
+        return match vh::borrowm::clone_reentrancy::<W>(pops) {
+            Ok(_) => {
+                println!("PASS prop=C11 replay={}", path);
+                0
+            }
+            Err((_, msg)) => {
+                println!("FAIL prop=C11 sig=borrow-clone-reentrancy tags=C11 step=0 replay={} msg={}", path, one_line(&msg));
+                1
+            }
+        };
+    }
     match vh::borrowm::check_sequence::<W>(pops, nests) {
         Ok(_) => {
             println!("PASS prop=C11 replay={}", path);
